@@ -60,6 +60,8 @@ IrregularStep(i) == H[i].op \in {"Removed", "MadeTransient"} /\ ~LastInChunk(Ver
 CrossesForward(w, r) == \E i \in (w + 1)..r : IrregularStep(i)
 Irregular == \E i \in 1..Len(H) : IrregularStep(i)
 Skip(w, r, emb) == \/ (~NoExclusion /\ Excluded(emb, Ver(D0, H, w), Ver(D0, H, r)))
+                   \/ (emb = "AsTupleVariant" /\ ~PositionsStable(Ver(D0, H, w), Ver(D0, H, r)))
+                   \/ (emb = "AsTupleVariant" /\ Len(Ver(D0, H, w).fields) * Len(Ver(D0, H, r).fields) = 0)
                    \/ (HalfLegal /\ CrossesForward(w, r))
                    \/ (HalfLegal /\ Irregular /\ Len(Ver(D0, H, w).steps) = 0)     \* headerless data carries no names
 
@@ -105,7 +107,8 @@ Case(w, r, emb, v) ==
   LET DW == Ver(D0, H, w)
       exp == Expected(D0, H, w, r, v) IN
   <<w, r, emb, EmbV(emb, v), Encode(EmbT(emb, DW), EmbV(emb, v)).b,
-    IF exp.ok THEN <<"ok", EmbV(emb, exp.v)>> ELSE <<exp.err, exp.field>>>>
+    IF exp.ok THEN <<"ok", EmbV(emb, exp.v)>>
+    ELSE <<exp.err, IF emb = "AsTupleVariant" THEN PosName(Ver(D0, H, r), exp.field) ELSE exp.field>>>>
 CasesFor(p) == UNION { {Case(p[1], p[2], emb, v) : v \in StructVals(Ver(D0, H, p[1]))} :
                        emb \in {e \in Embs : ~Skip(p[1], p[2], e)} }
 Cases == UNION {CasesFor(p) : p \in Pairs}
